@@ -19,6 +19,7 @@ func main() {
 	out := flag.String("out", "", "report file")
 	replay := flag.String("replay", "", "replay file (a violation record)")
 	flag.StringVar(&oraclePath, "oracle", oraclePath, "oracle binary")
+	flag.StringVar(&updogBin, "updog", updogBin, "updog binary built from /repo")
 	flag.Parse()
 
 	defer cleanupScratch()
